@@ -322,4 +322,86 @@ theorem lex_mono (v52 zf : Bool) (q : Char) (s : List Char) :
 
 /-! ## Numbers -/
 
+
+/-! ## idempotence of the rewrite -/
+
+theorem scan_cons_ne_bs (q : Q) (c : Char) (r : List Char) (h : c ≠ '\\') :
+    scan q (c :: r) = (if isQuote c then emitQuote q c else [c]) ++ scan q r := by
+  rw [scan]
+  · split <;> simp
+  · intro c' rest hc; exact absurd hc h
+
+theorem scan_bs_cons (q : Q) (c : Char) (r : List Char) :
+    scan q ('\\' :: c :: r) =
+      if isQuote c then emitQuote q c ++ scan q r
+      else if necessary c then '\\' :: c :: scan q r else c :: scan q r := by
+  rw [scan]
+
+theorem quote_ne_bs (c : Char) (h : isQuote c = true) : c ≠ '\\' := by
+  intro hc; subst hc; simp [isQuote] at h
+
+theorem scan_emitQuote (q : Q) (c : Char) (hq : isQuote c = true) (X : List Char) :
+    scan q (emitQuote q c ++ X) = emitQuote q c ++ scan q X := by
+  unfold emitQuote
+  split
+  · simp only [List.cons_append, List.nil_append]
+    rw [scan_bs_cons]; simp [emitQuote, *]
+  · rename_i hne
+    simp only [List.cons_append, List.nil_append]
+    rw [scan_cons_ne_bs q c X (quote_ne_bs c hq)]
+    simp [hq, emitQuote, hne]
+
+theorem scan_idem (q : Q) (s : List Char) : scan q (scan q s) = scan q s := by
+  fun_induction scan q s with
+  | case1 => rfl
+  | case2 c rest hq ih => rw [scan_emitQuote q c hq, ih]
+  | case3 c rest hq hn ih =>
+    rw [scan_bs_cons]; simp only [hq, hn, ih]; simp
+  | case4 c rest hq hn ih =>
+    have hn' : necessary c = false := by simpa using hn
+    have hb : c ≠ '\\' := by intro hc; subst hc; simp [necessary] at hn'
+    rw [scan_cons_ne_bs q c _ hb, ih]
+    simp [hq]
+  | case5 c rest hne hq ih => rw [scan_emitQuote q c hq, ih]
+  | case6 c rest hne hq ih =>
+    by_cases hb : c = '\\'
+    · subst hb
+      cases rest with
+      | nil => simp [scan, isQuote]
+      | cons d r => exact absurd rfl (fun h => hne d r rfl h)
+    · rw [scan_cons_ne_bs q c _ hb, ih]; simp [hq]
+
+theorem countC_append (ch : Char) (a b : List Char) : countC ch (a ++ b) = countC ch a + countC ch b := by
+  induction a with
+  | nil => simp [countC]
+  | cons x xs ih => simp [countC, ih]; omega
+
+theorem countC_emitQuote (ch : Char) (hch : ch ≠ '\\') (q : Q) (c : Char) :
+    countC ch (emitQuote q c) = countC ch [c] := by
+  unfold emitQuote
+  split
+  · have : ('\\' == ch) = false := beq_eq_false_iff_ne.mpr (fun e => hch e.symm)
+    simp [countC, this]
+  · rfl
+
+theorem countC_scan (ch : Char) (hch : ch ≠ '\\') (q : Q) (s : List Char) : countC ch (scan q s) = countC ch s := by
+  have hbs : ('\\' == ch) = false := beq_eq_false_iff_ne.mpr (fun e => hch e.symm)
+  fun_induction scan q s with
+  | case1 => rfl
+  | case2 c rest hq ih =>
+    rw [countC_append, countC_emitQuote ch hch, ih]; simp [countC, hbs]
+  | case3 c rest hq hn ih => simp [countC, ih]
+  | case4 c rest hq hn ih => simp [countC, ih, hbs]
+  | case5 c rest hne hq ih =>
+    rw [countC_append, countC_emitQuote ch hch, ih]; simp [countC]
+  | case6 c rest hne hq ih => simp [countC, ih]
+
+theorem quoteToUse_scan (style : QuoteStyle) (q : Q) (s : List Char) :
+    quoteToUse style (scan q s) = quoteToUse style s := by
+  cases style <;> simp [quoteToUse, countC_scan _ (by decide : '\'' ≠ '\\'), countC_scan _ (by decide : '"' ≠ '\\')]
+
+theorem rewrite_idem (style : QuoteStyle) (b : List Char) :
+    rewrite style (rewrite style b).2 = rewrite style b := by
+  simp only [rewrite, quoteToUse_scan, scan_idem]
+
 end StyluaModel.C04
